@@ -279,7 +279,10 @@ func c09Corpus() []c09CorpusCase {
 	tail := r.Bytes(bs + 34464)
 	edited := append([]byte(nil), tail...)
 	edited[10] ^= 0xff
+	dupd := r.Bytes(bs + 34464)
 	return []c09CorpusCase{
+		// found by this check: the second whole-file copy of the same old file came out empty
+		{pair: mk("corpus/same-file-copied-twice", map[string][]byte{"d.bin": dupd}, map[string][]byte{"d.bin": dupd, "d2.bin": dupd, "d3.bin": dupd})},
 		// #4: a pristine 64 KiB file copied whole is rejected "too large"
 		{pair: mk("corpus/pristine-64k-whole-copy", map[string][]byte{"a.bin": exact, "b.bin": two}, map[string][]byte{"a2.bin": exact, "b.bin": two})},
 		// #5: +5 bytes inside the last short block, whole-file copy: 105-byte output, no error
@@ -660,6 +663,64 @@ func (c *Ctx) c09Drive(files []c09File, steps []c09Step, tag string) (oracle str
 	return oracle, nil
 }
 
+// c09SigFail: when the signature cannot be loaded (source cannot be opened, or is not a
+// signature) nothing may be served: every consumer must fail.
+func (c *Ctx) c09SigFail(r *lib.Rng) error {
+	data := structuredContent(r, lib.BS+100)
+	for _, mode := range []string{"open-error", "garbage", "truncated-signature"} {
+		sp := lib.NewMemPool([][]byte{data})
+		hashes, err := pwr.ComputeSignature(context.Background(), sp.Container, sp, lib.Quiet)
+		if err != nil {
+			return err
+		}
+		sig, err := rdSigBytes(&pwr.SignatureInfo{Container: sp.Container, Hashes: hashes})
+		if err != nil {
+			return err
+		}
+		opens := 0
+		sk, err := pwr.NewSafeKeeper(pwr.SafeKeeperParams{Inner: lib.NewMemPool([][]byte{data}), Open: func() (savior.SeekSource, error) {
+			opens++
+			var b []byte
+			switch mode {
+			case "open-error":
+				return nil, fmt.Errorf("cannot open the signature")
+			case "garbage":
+				b = r.Bytes(200)
+			default:
+				b = sig[:len(sig)-7]
+			}
+			src := seeksource.FromBytes(b)
+			if _, err := src.Resume(nil); err != nil {
+				return nil, err
+			}
+			return src, nil
+		}})
+		if err != nil {
+			return err
+		}
+		oracle := ""
+		var obs []string
+		for i := 0; i < 3; i++ {
+			var buf bytes.Buffer
+			cls, msg := lib.Guard(func() error {
+				rd, err := sk.GetReader(0)
+				if err != nil {
+					return err
+				}
+				_, err = io.CopyBuffer(plainWriter{&buf}, rd, make([]byte, c09Chunk))
+				return err
+			})
+			obs = append(obs, fmt.Sprintf("%s/%d", cls, buf.Len()))
+			if cls != "error" && oracle == "" {
+				oracle = fmt.Sprintf("signature unusable (%s) but the copy ended with %s after %d bytes: %s", mode, cls, buf.Len(), msg)
+			}
+		}
+		c.Out.Emit(&lib.Case{Class: "sigfail/" + mode, Nontrivial: true, Input: map[string]interface{}{"mode": mode, "size": len(data)},
+			Obs: map[string]interface{}{"copies": obs, "opens": opens}, Oracle: oracle})
+	}
+	return nil
+}
+
 var c09Sizes = []int{0, 1, 100, c09Chunk, c09Chunk + 1, bs64 - 1, bs64, bs64 + 1, bs64 + c09Chunk, 2*bs64 - 1, 2 * bs64, 2*bs64 + 5, 3 * bs64, 3*bs64 + c09Chunk + 7}
 
 func c09GenFile(r *lib.Rng) (c09File, string) {
@@ -777,6 +838,7 @@ func runC09(c *Ctx) error {
 		{"corpus/cut-at-boundary-copy", []c09File{{tail, tail[:bs]}}, []c09Step{{Kind: "copy"}}},
 		{"corpus/cut-at-boundary-range", []c09File{{tail, tail[:bs]}}, []c09Step{{Kind: "range", Blk: 0, Span: 2}}},
 		{"corpus/cut-at-boundary-chunks", []c09File{{tail, tail[:bs]}}, []c09Step{{Kind: "chunks", Cis: []int64{1, 2, 3}}}},
+		{"corpus/same-file-copied-twice", []c09File{{tail, tail}}, []c09Step{{Kind: "copy"}, {Kind: "copy"}, {Kind: "range", Blk: 1, Span: 1}, {Kind: "copy"}}},
 	}
 	for i, cc := range corpus {
 		if err := c.c09EmitSkread(cc.files, cc.steps, cc.name, fmt.Sprintf("corpus%d", i)); err != nil {
@@ -787,6 +849,9 @@ func runC09(c *Ctx) error {
 		if err := c.c09RunPair(rc.Fork(), 1000+i, cc.pair, cc.damages, 0); err != nil {
 			return err
 		}
+	}
+	if err := c.c09SigFail(rc.Fork()); err != nil {
+		return err
 	}
 	// ---- generated: reader level
 	n := c.N(200, 2500)
